@@ -303,7 +303,7 @@ PROPS = {
     },
     'C12': {
         'props_file': 'props/C12.v',
-        'domains': [{'name': 'conc-one', 'quick': 400, 'thorough': 20000, 'thorough_shards': 10, 'race': 150, 'race_thorough': 3000}],
+        'domains': [{'name': 'conc-one', 'ok_is_spec': True, 'quick': 400, 'thorough': 20000, 'thorough_shards': 10, 'race': 150, 'race_thorough': 3000}],
         'spec_ops': ['linearizable', 'no-crash'],
         'corr': 'corr.conc (CorrConc.check_conc): linearizability of observed concurrent histories w.r.t. the extracted sequential location model (depth-first search over real-time-respecting orders, final memory and storage included) + race-detector runs of the same harness',
         'rule': 'conc-one: 2-3 client goroutines, 2-4 operations each (AddFact on 3 shared ids, RemFact, GetFact, SearchFacts, AddRule/RemRule on 3 shared rule ids, some rules with an expiration, FindRules dispatch) on one location (either state kind), '
@@ -322,7 +322,7 @@ PROPS = {
     },
     'C11': {
         'props_file': 'props/C11.v',
-        'domains': [{'name': 'conc-loc', 'quick': 400, 'thorough': 20000, 'thorough_shards': 10, 'race': 150, 'race_thorough': 3000}],
+        'domains': [{'name': 'conc-loc', 'ok_is_spec': True, 'quick': 400, 'thorough': 20000, 'thorough_shards': 10, 'race': 150, 'race_thorough': 3000}],
         'spec_ops': ['linearizable', 'no-crash'],
         'corr': 'corr.conc (CorrConc.check_conc) on histories through ONE sys.System from a cold start, one location per client + race-detector runs',
         'rule': 'conc-loc: 2-3 client goroutines, each with its own location, 2-4 operations each through the sys.System API of one System, released together from process start (storage, cache entries and locations are created by the concurrent first requests); '
@@ -346,21 +346,20 @@ PROPS = {
                 'Add/Rem results, every Timeline snapshot and the per-id fire counts compared) and corr.crolt (CorrCrolt.check_crolt: the crolt binary built with -tags verif and driven as a child '
                 'process; after every Add/Delete/DeleteAccount/work/reopen all buckets are scanned and compared key for key, in Bolt order, with Crolt.bstep)',
         'rule': 'cron: scripts on the grid S+125+50k ms (S = wall-clock fraction 0.100) with one-shot jobs due on S+150+50k ms, far jobs, every-second jobs, replaced and removed ids over 6 ids, '
-                'limit 100 or 1-4; scenarios (i mod 6): plain, removal of the head (D38), suspend/resume/pause with and without an Add meanwhile (D49), Rem/Add while the callback runs (D26) and '
-                'Add at capacity (D50), small limits, recurring; crolt: 3-8 Add (durations, cron expressions, client once/evict, malformed ids and schedules) / Delete / DeleteAccount / reopen over '
+                'limit 100 or 1-4; scenarios (i mod 6): plain, removal of the head (was D38), suspend/resume/pause with and without an Add meanwhile (was D49), Rem/Add while the callback runs (was D26) and '
+                'Add at capacity (was D50), small limits, recurring; crolt: 3-8 Add (durations, cron expressions, client once/evict, malformed ids and schedules) / Delete / DeleteAccount / reopen over '
                 '5 accounts x 3 ids and 1-4 partitions, work on every partition after sleeps past the due instants and past TTL (300 ms), 12 due entries for the limit of 10, an Add carrying a '
                 'foreign TId (D40); non-trivial = something fired (cron) / fired or was evicted (crolt); distinct by hash of inputs and observations',
-        'refuted': ['removed_inflight_recurring_counterexample, readd_inflight_lost_counterexample (D26)', 'rem_head_stalls_counterexample (D38)',
-                    'add_while_suspended_fires_counterexample (D49)', 'add_at_capacity_drops_job_counterexample (D50)',
-                    'client_tid_breaks_consistency_counterexample (D40)', 'work_fires_subsecond_early_counterexample, work_defers_due_entry_counterexample (D39)'],
+        'refuted': ['client_tid_breaks_consistency_counterexample (D40)', 'work_fires_subsecond_early_counterexample, work_defers_due_entry_counterexample (D39)'],
         'level_text': 'Coq theorems over the executable models of cron.Cron (timeline, running callbacks, timer target; Add/Rem/tick/callback return/suspend/resume/pause) and of the crolt buckets '
                       '(jobs and time maps with Bolt\'s key order, Add/Delete/DeleteAccount/work/reopen), for ALL operation sequences, no size bound: timeline_sorted, unique_ids, no_early_fire, '
-                      'oneshot_fires_at_most_once, recurring_once_per_occurrence, removed_pending_never_fires, suspend_keeps_jobs, suspended_quiet, resume_rearms, timer_armed_without_rem; '
+                      'oneshot_fires_at_most_once, recurring_once_per_occurrence, removed_never_fires (pending or running), rem_found_iff, suspend_keeps_jobs, suspended_quiet (unconditional), suspended_timer_stopped, '
+                      'resume_rearms, timer_armed_invariant / never_stalled (all histories), rem_rearms_timer, refused_add_no_effect, add_ok_iff; '
                       'buckets_consistent (every op, every history, restart), one_time_entry_per_job, delete_removes_both, work_fires_due_only, oneshot_becomes_evict, evict_entry_removed. '
                       'Tie to the code: timed scripts on the real cron.Cron and op-by-op bucket scans of the real crolt service replayed through the extracted models; the specification judged on the observations.',
-        'level_note': 'Known findings: D26 (recurring job removed/replaced while its callback runs comes back), D38 (Rem of the head leaves the timer un-armed: later jobs stall until the next Add/Resume), '
-                      'D49 (an Add, a callback return or a pause while suspended re-arms the timer: jobs fire while suspended), D50 (Add of a pending id at capacity removes the job and reports an error), '
-                      'D40 (crolt Add accepts a client TId and deletes that time entry), D39 (crolt time keys are RFC3339Nano strings with trimmed zeros: inside one second key order is not time order; '
+        'level_note': 'Repaired in /repo (fix commits; the model is the model of the repaired code and the former refutations are now theorems): D26 (recurring job removed/replaced while its callback runs came back), '
+                      'D38 (Rem of the head left the timer un-armed), D49 (an Add, a callback return or a pause while suspended re-armed the timer: jobs fired while suspended), D50 (Add of a pending id at capacity removed the job). '
+                      'Known findings: D40 (crolt Add accepts a client TId and deletes that time entry), D39 (crolt time keys are RFC3339Nano strings with trimmed zeros: inside one second key order is not time order; '
                       'whole-second keys wait one more second). Trusted: Bolt transaction atomicity/durability (reopen is the identity in the model; checked on the real file by the harness), '
                       'time.Timer semantics (a stopped or expired timer delivers nothing more), goroutine start latency below the margins (operations nearer than 10 ms to a simulated event, or later than 15 ms, are counted ambiguous).',
         'technique': 'Coq proofs by invariant over operation sequences (fold_left) + event-driven differential replay of timed scripts (cron) and bucket-by-bucket differential replay of a child process (crolt)',
